@@ -228,7 +228,6 @@ pub fn convolution_apply_dft<R, A, B, BE>(
     let min_size: usize = res_size.min(bound);
     let offset: usize = cnv_offset.min(bound);
 
-    let dst: &mut [f64] = res.raw_mut();
     let a_raw: &[f64] = a.raw();
     let b_raw: &[f64] = b.raw();
 
@@ -238,7 +237,10 @@ pub fn convolution_apply_dft<R, A, B, BE>(
     let b_offset: usize = b_size * 8;
     for blk_i in 0..m / 4 {
         BE::reim4_convolution(tmp, min_size, offset, &a_raw[a_idx..], a_size, &b_raw[b_idx..], b_size);
-        BE::reim4_save_1blk_contiguous(m, min_size, blk_i, dst, tmp);
+        // store limb k of the selected column (res may have several columns)
+        for k in 0..min_size {
+            BE::reim4_save_1blk::<true>(m, blk_i, res.at_mut(res_col, k), &tmp[8 * k..]);
+        }
         a_idx += a_offset;
         b_idx += b_offset;
     }
@@ -296,7 +298,6 @@ pub fn convolution_pairwise_apply_dft<R, A, B, BE>(
     let min_size: usize = res_size.min(bound);
     let offset: usize = cnv_offset.min(bound);
 
-    let res_raw: &mut [f64] = res.raw_mut();
     let a_raw: &[f64] = a.raw();
     let b_raw: &[f64] = b.raw();
 
@@ -321,7 +322,10 @@ pub fn convolution_pairwise_apply_dft<R, A, B, BE>(
         BE::reim_add(tmp_b, &b0[..b_row_size], &b1[..b_row_size]);
 
         BE::reim4_convolution(tmp_res, min_size, offset, tmp_a, a_size, tmp_b, b_size);
-        BE::reim4_save_1blk_contiguous(m, min_size, blk_i, res_raw, tmp_res);
+        // store limb k of the selected column (res may have several columns)
+        for k in 0..min_size {
+            BE::reim4_save_1blk::<true>(m, blk_i, res.at_mut(res_col, k), &tmp_res[8 * k..]);
+        }
 
         a0_idx += a_row_size;
         a1_idx += a_row_size;
